@@ -410,8 +410,12 @@ def iter_beacon_config_blocks(
         # Determine most common bytes in the (xordecoded) file
         bytes_counter = collections.Counter()
         fxor.seek(0)  # the searches above have left the file position at the end
+        remainder = b""
         for chunk in iter(functools.partial(fxor.read, io.DEFAULT_BUFFER_SIZE), b""):
-            fourgrams = grouper(chunk, n=4, fillvalue=0)
+            # keep the 4-byte groups aligned to the start of the file whatever the size of a chunk is
+            chunk = remainder + chunk
+            remainder = chunk[len(chunk) - len(chunk) % 4 :]
+            fourgrams = grouper(chunk[: len(chunk) - len(remainder)], n=4)
             bytes_counter.update(gram[0] for gram in fourgrams if gram[0] == gram[1] == gram[2] == gram[3])
         most_common_bytes = [p8(x[0]) for x in bytes_counter.most_common()]
 
